@@ -328,6 +328,21 @@ impl Walrus {
                         })?;
                         let mut maybe_persist = None;
                         if checkpoint {
+                            // The column lock was released for the read. If another consumer
+                            // advanced the tail cursor meanwhile, or the writer sealed this
+                            // block (its progress was carried into the sealed chain without
+                            // this entry), delivering the entry now would deliver it twice:
+                            // start over from the current position instead.
+                            // (block ids grow along the chain, so the last sealed block tells
+                            // whether the block this entry was read from has been sealed)
+                            if (info.tail_block_id, info.tail_offset) != tail_snapshot
+                                || info.cur_block_idx < info.chain.len()
+                                || info.chain.last().map_or(false, |b| b.id >= active_block.id)
+                            {
+                                drop(info);
+                                persisted_tail = None;
+                                continue;
+                            }
                             info.tail_block_id = active_block.id;
                             info.tail_offset = new_off;
                             maybe_persist = if self.should_persist(&mut info, false) {
